@@ -137,6 +137,11 @@ def eval_hessian_bound(d, dspec, X, y, w):
     if not c06.in_range(dspec, X, y, w):
         return fails, obs
     try:
+        # the solvers call raw_grad right before raw_hessian at the same point; here it is called at ANOTHER point first, so that an
+        # accessor answering from what raw_grad left behind is seen (C06's accessor histories cover the general case)
+        u_other = 0.25 * u + 0.5
+        if c06.in_range(dspec, X, y, w) and (dspec["name"] != "SqrtQuadratic" or np.any(y - u_other)):
+            d.raw_grad(y, u_other)
         rh = np.asarray(d.raw_hessian(y, u), dtype=float)
     except Exception as e:
         return [("raw_hessian", "exception", type(e).__name__, None)], obs
